@@ -156,3 +156,47 @@ def split_url(url: str) -> Optional[Tuple[str, List[str]]]:
         return None
     parts = tail.split("/")
     return parts[0], parts[1:]
+
+
+def border_bits(s: str, h: int, w: int) -> Tuple[List[int], List[int], int]:
+    """raw border bits: h x (w-1) vertical-border flags, then (h-1) x w horizontal ones, 5 per base-32 character; returns the index
+    of the first character after them"""
+    def bits(start: int, count: int) -> Tuple[List[int], int]:
+        nchar = (count + 4) // 5
+        out: List[int] = []
+        for k in range(nchar):
+            if start + k >= len(s):
+                raise Bad("border section too short")
+            v = B36.index(s[start + k])
+            if v >= 32:
+                raise Bad("border digit out of range")
+            out.extend([(v >> (4 - j)) & 1 for j in range(5)])
+        if any(out[count:]):
+            raise Bad("padding bits set")
+        return out[:count], start + nchar
+
+    vb, i = bits(0, h * (w - 1))
+    hb, i = bits(i, (h - 1) * w)
+    return vb, hb, i
+
+
+def run_cells(s: str, n: int, digits: str, first_run: str) -> Tuple[List[Any], int]:
+    """cells written as single characters from `digits`, with runs of empty cells as one base-36 character each
+    (`first_run` = one empty cell, the next character two, ... up to 'z')"""
+    out: List[Any] = []
+    i = 0
+    base = B36.index(first_run)
+    while len(out) < n:
+        if i >= len(s):
+            raise Bad("cell section too short")
+        c = s[i]
+        i += 1
+        if c in digits:
+            out.append(c)
+        elif c in B36 and B36.index(c) >= base:
+            out.extend([None] * (B36.index(c) - base + 1))
+        else:
+            raise Bad(f"unexpected character {c!r}")
+    if len(out) != n:
+        raise Bad("a run of empty cells overshoots the board")
+    return out, i
